@@ -278,10 +278,52 @@ def _first_gen(case):
 
 def known_length_longer(case, vio):
     """ArrayGenerator::generate_and_check accepts a generated array longer than the declared length"""
-    return _first_gen(case) == "long" and vio.get("bucket", "").startswith("unenforced:long|")
+    # ... and operations on such an array work with two different lengths (the declared one for len(), the real one for the data):
+    # kernels sized by one and indexed by the other die under the sanitizer (crash bucket of a history whose first generator is "long")
+    b = vio.get("bucket", "")
+    return _first_gen(case) == "long" and (b.startswith("unenforced:long|") or (b.startswith("crash:virtual|") and b.endswith("|long")))
 
 
-KNOWN = {"virtual_generated_longer_than_declared": known_length_longer}
+NOT_CONFORM = "generated array does not conform to expected form"
+
+
+def _observed_text(vio):
+    obs = vio.get("observed")
+    return obs[1] if isinstance(obs, list) and len(obs) > 1 and isinstance(obs[1], str) else ""
+
+
+def known_bitmasked_range_form(case, vio):
+    """Form::getitem_range() is the identity for every form but BitMaskedForm, yet RegularArray / RecordArray / ByteMaskedArray / UnmaskedArray
+    slice their contents: a BitMaskedArray below them becomes a ByteMaskedArray, which the predicted form of the lazy slice does not say"""
+    text = _observed_text(vio)
+    if not (vio.get("bucket", "").startswith("errorclass:") and NOT_CONFORM in text):
+        return False
+    expected, _, generated = text.partition("but generated:")
+    if case.get("part") in ("virtual", "pvirtual"):
+        descs = [case["desc"]]
+    elif case.get("part") == "partition":
+        descs = [D.strip_virtual(d) for d in case["pieces"] if d["class"] == "VirtualArray"]
+    else:
+        return False
+    return ('"BitMaskedArray"' in expected and '"ByteMaskedArray"' in generated
+            and any(K.any_node(d, lambda n: n["class"] == "BitMaskedArray") for d in descs))
+
+
+def known_nested_virtual_slice_form(case, vio):
+    """a VirtualArray with a declared (or, after a first generation, inferred) form whose generated array contains further VirtualArray nodes passes generate_and_check (compatibility
+    check) but the form predicted for its lazy field / range slice assumes the nodes are not virtual (option/indexed simplification)"""
+    text = _observed_text(vio)
+    if not (case.get("part") == "virtual" and vio.get("bucket", "").startswith("errorclass:") and NOT_CONFORM in text):
+        return False
+    _, _, generated = text.partition("but generated:")
+    paths = [tuple(w["path"]) for w in case["wraps"]]
+    nested = any(any(len(q) > len(w["path"]) and q[:len(w["path"])] == tuple(w["path"]) for q in paths) for w in case["wraps"])
+    return '"VirtualArray"' in generated and nested
+
+
+KNOWN = {"virtual_generated_longer_than_declared": known_length_longer,
+         "virtual_range_form_bitmasked": known_bitmasked_range_form,
+         "virtual_slice_form_nested_virtual": known_nested_virtual_slice_form}
 
 
 def pre_exclude(case):
@@ -498,7 +540,8 @@ def _run_virtual(case, run):
         except GeneratorFailure:
             V.clear_pending()
         except ValueError:
-            if gk in BAD_GENERATORS and run.calls[0] > 0:
+            if gk in BAD_GENERATORS and sum(run.calls) > 0:
+                # the contradicting generator ran, or an enclosing wrapper's generator ran and its check met the contradicting declaration
                 return {"tags": ["part:virtual", "gen:" + gk, "mismatch_detected_at_construction"], "nontrivial": False}
             if gk == "long" and w0["path"] and run.calls[0] == 0:
                 # the declared length is shorter than the node it replaces: the enclosing node's constructor (which only sees
@@ -599,6 +642,11 @@ def _run_virtual(case, run):
             # both refuse; which exception class a refusal uses is not part of the statement (a lazy getitem_field without a form reaches
             # NumpyArray::getitem(Slice), a runtime_error, where the eager getitem_field raises invalid_argument)
             tags.append("error_class_differs")
+            continue
+        if ek == "ValueError" and vk == "ok" and op in ("sort", "argsort") and "array with strings can only be sorted with axis=-1" in (emsg or ""):
+            # the eager array refuses (there is no value to compare with); the refusal is decided by purelist_parameter("__array__") of an outer
+            # node, which a VirtualArray below it answers from its (declared, inferred, sliced or unknown) form without materialising
+            tags.append("string_sort_refusal_not_compared")
             continue
         if vk != ek:
             raise Violation("errorclass:" + bucket_tail, "%s: eager twin gives %s, virtual twin gives %s" % (op, ek, vk),
@@ -717,6 +765,17 @@ def check_partitioned(p, expected, what):
 
 
 def run_partition(case):
+    try:
+        return _run_partition(case)
+    except ValueError as e:
+        if NOT_CONFORM in str(e) and any(d["class"] == "VirtualArray" for d in case["pieces"]):
+            # reading a lazy partition (or a lazy slice of one) fails although its generator is correct
+            raise Violation("errorclass:partition|lazy_read", "a read of a partitioned array with lazy partitions fails where the concatenated array answers",
+                            expected="ok", observed=["ValueError", str(e)])
+        raise
+
+
+def _run_partition(case):
     real_pieces = case["pieces"]
     pieces = [D.strip_virtual(d) for d in real_pieces]       # what the model reads
     T = M.decode(pieces[0])[0]
